@@ -404,7 +404,131 @@ def area_hands(ctx, b):
     ctx.count('translated_hands_calls', len(b.ops))
 
 
-AREAS = {'hands': area_hands, 'score': area_score, 'imps': area_imps, 'notation': area_notation, 'auction': area_auction, 'play': area_play}
+def area_json(ctx, b):
+    """the JSON writers and the JSON parser: complete documents, compared as TEXT (writers) and as records (parser)"""
+    import io
+    from bridge_env import Bid, Card, Contract, Hands, Pair, Player, Suit, Vul
+    from bridge_env.bidding_phase import BiddingPhase
+    from bridge_env.data_handler.json_handler.parser import JsonParser
+    from bridge_env.data_handler.json_handler.writer import JsonBoardSettingWriter, JsonLogWriter
+    from bridge_env.data_handler.pbn_handler.writer import Scoring
+    from bridge_env.playing_phase import PlayingPhaseWithHands
+    rng = ctx.rng
+    driver = common.ModelDriver()
+    n_docs = 6 if ctx.quick else 40
+    names = ['teamNS', 'Team (A)', 'x', 'a b', 'E/W', 'ſtrange "q"', 'tab\there', 'é😀', '']
+    bad = []
+
+    def new_board(k):
+        cards = [Card.int_to_card(i) for i in range(52)]
+        rng.shuffle(cards)
+        hs = [set(cards[i * 13:(i + 1) * 13]) for i in range(4)]
+        dealer, vul = rng.choice(list(Player)), rng.choice(list(Vul))
+        sub = Batch()
+        bp = gen_auction_run(rng, sub, f'j{k}')
+        while not bp.has_done():
+            bp.take_bid(Bid.Pass)
+        con = bp.contract()
+        ph, taken = None, None
+        if not con.is_passed_out():
+            pp = PlayingPhaseWithHands(con, Hands(*[set(h) for h in hs]))
+            while not pp.has_done():
+                pl = pp.active_player
+                pp.play_card_by_player(rng.choice(sorted(pp.current_available_cards_in_hand(pl), key=int)), pl)
+            ph, taken = pp.playing_history, pp.taken_tricks[con.declarer.pair]
+        score = rng.randrange(-7600, 7601, 10) if ph is not None else 0
+        scores = {Pair.NS: score, Pair.EW: -score}
+        if con.declarer is not None and con.declarer.pair is Pair.EW:
+            scores = {Pair.EW: score, Pair.NS: -score}
+        dda = None
+        if rng.random() < 0.4:
+            dda = {p: {su: rng.randrange(0, 14) for su in Suit} for p in Player}
+        return dict(board_id=rng.choice(['1', 'b7', 'Board 12', '#"x"', 'é']), dealer=bp.dealer, deal=Hands(*hs), vul=bp.vul,
+                    bid_history=list(bp.bid_history), contract=con, play_history=ph, taken_trick_num=taken, scores=scores, dda=dda)
+
+    for d in range(n_docs):
+        nb = rng.choice([0, 1, 1, 2, 3])
+        boards = [new_board(f'{d}_{k}') for k in range(nb)]
+        ns, ew = rng.choice(names), rng.choice(names)
+        scoring = rng.choice(list(Scoring))
+        # ---- log writer
+        fp = io.StringIO()
+        ops = ['Y.newr f _File', 'Y.newr w JsonLogWriter $f', 'Y.methr w JsonLogWriter open']
+        out_real = PC.outcome(lambda: JsonLogWriter(fp))
+        w = out_real[1]
+        w.open()
+        for bd in boards:
+            args = dict(board_id=bd['board_id'], west_player=ew, north_player=ns, east_player=ew, south_player=ns,
+                        dealer=bd['dealer'], deal=bd['deal'], scoring=scoring, bid_history=bd['bid_history'],
+                        contract=bd['contract'], play_history=bd['play_history'], taken_trick_num=bd['taken_trick_num'],
+                        scores=bd['scores'], dda=bd['dda'])
+            w.write(**args)
+            order = ['board_id', 'west_player', 'north_player', 'east_player', 'south_player', 'dealer', 'deal', 'scoring',
+                     'bid_history', 'contract', 'play_history', 'taken_trick_num', 'scores', 'dda']
+            enc_args = [enc_hands_obj(args[k]) if k == 'deal' else PC.enc(args[k]) for k in order]
+            ops.append('Y.methr w JsonLogWriter write ' + ' '.join(enc_args))
+        w.close()
+        ops.append('Y.methr w JsonLogWriter close')
+        text = fp.getvalue()
+        lines = driver.run(ops)
+        mtext = None
+        last = lines[-1].split(' ')
+        if last[0] == 'ok':
+            tree = PC.parse(last[2])
+            buf = tree[2]['_writer'][2]['buf']
+            mtext = ''.join(x[1] for x in buf[1])
+        ctx.count('translated_json_log_documents')
+        ctx.count('translated_json_boards', nb)
+        if mtext != text:
+            bad.append(('JsonLogWriter', ops[-2][:300] if len(ops) > 4 else ops[-1], lines[-1][:200],
+                        f'document text differs: python {text[-160:]!r} / translated {str(mtext)[-160:]!r}; '
+                        f'first bad answer: {next((l for l in lines if not l.startswith("ok")), "-")[:120]}'))
+            continue
+        # ---- settings writer
+        fp2 = io.StringIO()
+        ops2 = ['Y.newr f2 _File', 'Y.newr s JsonBoardSettingWriter $f2', 'Y.methr s JsonBoardSettingWriter open']
+        sw = JsonBoardSettingWriter(fp2)
+        sw.open()
+        for bd in boards:
+            sw.write(board_id=bd['board_id'], dealer=bd['dealer'], deal=bd['deal'], vul=bd['vul'], dda=bd['dda'])
+            ops2.append('Y.methr s JsonBoardSettingWriter write ' + ' '.join(
+                [PC.enc(bd['board_id']), PC.enc(bd['dealer']), enc_hands_obj(bd['deal']), PC.enc(bd['vul']), PC.enc(bd['dda'])]))
+        sw.close()
+        ops2.append('Y.methr s JsonBoardSettingWriter close')
+        text2 = fp2.getvalue()
+        lines2 = driver.run(ops2)
+        last2 = lines2[-1].split(' ')
+        mtext2 = None
+        if last2[0] == 'ok':
+            buf = PC.parse(last2[2])[2]['_writer'][2]['buf']
+            mtext2 = ''.join(x[1] for x in buf[1])
+        if mtext2 != text2:
+            bad.append(('JsonBoardSettingWriter', ops2[-2][:300], lines2[-1][:200], f'document text differs: {text2[-120:]!r} / {str(mtext2)[-120:]!r}'))
+            continue
+        # ---- parser, on both documents (and on damaged ones)
+        docs = [('parse_board_logs', text), ('parse_board_settings', text), ('parse_board_settings', text2),
+                ('parse_board_logs', text2)]
+        if text and rng.random() < 0.7:
+            i = rng.randrange(len(text))
+            docs.append(('parse_board_logs', text[:i] + rng.choice(['', '}', '"', 'x', ',']) + text[i + 1:]))
+        for meth, t in docs:
+            if any(0xD800 <= ord(c) <= 0xDFFF for c in t):
+                continue
+            b.ops.append(f'Y.meth JsonParser {meth} oJsonParser{{}} o_File{{buf=t({PC.enc(t)})}}')
+            out = PC.outcome(lambda: getattr(JsonParser(), meth)(io.StringIO(t)))
+            if out[0] == 'exc' and out[1] == 'JSONDecodeError':
+                out = ('exc', 'ValueError')                # json.JSONDecodeError is a ValueError
+            b.exp.append((out, None))
+            b.info.append('JsonParser.' + meth)
+    ctx.count('translated_json_parser_calls', len(b.ops))
+    for fn, op, line, why in bad[:3]:
+        b.ops.append('Y.skipped')
+        b.exp.append((('ok', None), None))
+        b.info.append(fn)
+        b.prefailed = getattr(b, 'prefailed', []) + [(fn, op, line, why)]
+
+
+AREAS = {'json': area_json, 'hands': area_hands, 'score': area_score, 'imps': area_imps, 'notation': area_notation, 'auction': area_auction, 'play': area_play}
 # areas whose input set does not depend on the shard: only shard 0 runs them
 UNSHARDED = {'score', 'imps', 'notation'}
 
@@ -424,6 +548,11 @@ def validate(ctx, areas):
                           'diff': {'what': 'the real code raised while the inputs of the translation validation were generated',
                                    'exception': repr(e), 'where': traceback.format_exc()[-600:]}})
         bad = b.run(driver)
+        bad = [x for x in bad if not x[1].startswith('Y.skipped')]
+        for fn, op, line, why in getattr(b, 'prefailed', []):
+            fails.append({'key': f'translated:{area}', 'kind': 'broken-correspondence',
+                          'diff': {'what': 'the translated program (Generated/PyCore.lean under MiniPy) and the real function disagree',
+                                   'function': fn, 'op': op, 'translated': line, 'why': why[:700]}})
         ctx.count('translated_ops', len(b.ops))
         ctx.count('_evals', len(b.ops))
         for i, op, line, why in bad[:3]:
